@@ -1,0 +1,10 @@
+//go:build !verif
+
+package hc
+
+import "github.com/brutella/dnssd"
+
+// Verification hook (see verif_on.go). Without the "verif" build tag it is
+// empty and inlined away.
+
+func verifResponder(r dnssd.Responder) dnssd.Responder { return r }
